@@ -1,5 +1,6 @@
 #!/usr/bin/env python3
 """Shared machinery of ./check (see its docstring)."""
+import zlib
 import argparse, collections, fcntl, hashlib, json, os, random, re, subprocess, sys, time
 
 ROOT = "/verif"
@@ -172,6 +173,35 @@ def gen_stream(stream, seed, n, maxfrags=10):
     return out.decode().split("\n")[:-1]
 
 
+def fuzz_corpus(seed, secs):
+    """thorough tier: coverage-guided input discovery on the current tree (inputs only, no verdict)"""
+    import shutil, tempfile
+    cdir = os.path.join(WORK, "fuzz-corpus")
+    shutil.rmtree(cdir, ignore_errors=True)
+    os.makedirs(cdir)
+    seeds = corpus_inputs()[:400] + gen_stream("soup", seed, 600) + gen_stream("strings", seed, 200)
+    for i, h in enumerate(seeds):
+        open(os.path.join(cdir, f"seed{i}"), "wb").write(bytes.fromhex(h))
+    art = os.path.join(WORK, "fuzz-artifacts") + "/"
+    shutil.rmtree(art, ignore_errors=True)
+    os.makedirs(art)
+    with Lock("cargo"):
+        rc, out, err = run(["cargo", "+nightly", "fuzz", "run", "--fuzz-dir", os.path.join(ROOT, "harness/fuzz"), "--target-dir",
+                            os.path.join(WORK, "target-fuzz"), "lex", cdir, "--", f"-max_total_time={secs}", "-fork=12", "-ignore_crashes=1",
+                            "-max_len=160", f"-artifact_prefix={art}", "-print_final_stats=1"],
+                           env={"RUSTFLAGS": "--cfg sas_lexer_verif"}, timeout=secs + 900)
+    res = []
+    for d in (cdir, art):
+        for f in os.listdir(d):
+            try:
+                b = open(os.path.join(d, f), "rb").read()
+                b.decode("utf-8")
+                res.append(b.hex())
+            except (UnicodeDecodeError, OSError):
+                pass
+    return list(dict.fromkeys(res)), (out + err).decode(errors="replace")[-600:]
+
+
 def corpus_inputs():
     out = []
     d = os.path.join(ROOT, "corpus")
@@ -335,6 +365,9 @@ def streams_for(pid, tier):
         "open": 4000 if q else 100000,
         "nl": 5000 if q else 150000,
         "mb": 4000 if q else 100000,
+        "progs": 6000 if q else 150000,
+        "uws": 4000 if q else 100000,
+        "hexstr": 1500 if q else 40000,     # + the exhaustive 00..ff table (always)
     }
     return base
 
@@ -349,17 +382,19 @@ def prop(pid, **kw):
     PROPS[pid] = kw
 
 
-prop("C02", modules=["SasLexer.Properties.C02"], theorems=["SasLexer.kernel_C02_boundaries", "SasLexer.kernel_C02_last_eof", "SasLexer.kernel_C02_monotone_debug", "SasLexer.run_KMono"],
+prop("C02", modules=["SasLexer.Properties.C02"], theorems=["SasLexer.kernel_C02_boundaries", "SasLexer.kernel_C02_last_eof", "SasLexer.kernel_C02_monotone_debug", "SasLexer.kernel_C02_monotone_release", "SasLexer.run_KMono"],
      variants=["dev", "rel", "dev-sep", "rel-sep"], proj=proj_tok_bytes)
 prop("C03", modules=["SasLexer.Properties.C03"], theorems=["SasLexer.kernel_C03", "SasLexer.C03_model"],
      variants=["dev", "rel", "rel-sep"], proj=proj_positions)
-prop("C04", modules=["SasLexer.Properties.C04"], theorems=["SasLexer.kernel_C04_line_positions"],
+prop("C04", modules=["SasLexer.Properties.C04"],
+     theorems=["SasLexer.kernel_C04_line_positions", "SasLexer.DBuf.resolved_lines_exact", "SasLexer.C04_of_lineWF", "SasLexer.lineWFB_sound"],
      variants=["dev", "rel", "rel-sep"], proj=proj_lines)
 prop("C05", modules=["SasLexer.Properties.C05"], theorems=["SasLexer.C05_pure", "SasLexer.C05_wf_needed", "SasLexer.DBuf.resolved_eq_accessors"],
      variants=["dev", "rel", "rel-sep"], proj=proj_views)
 prop("C09", modules=["SasLexer.Properties.C09"], theorems=["SasLexer.kernel_C09_offsets", "SasLexer.kernel_C09_last_token_exists", "SasLexer.run_KErr"],
      variants=["dev", "rel", "rel-sep"], proj=proj_errors)
-prop("C17", kind="bom", modules=["SasLexer.Properties.C17"], theorems=[],
+prop("C17", kind="bom", modules=["SasLexer.Properties.C17"],
+     theorems=["SasLexer.run_shift", "SasLexer.kernel_C17", "SasLexer.C17_model_partial", "SasLexer.sideOkRun_sound"],
      variants=["dev", "rel", "rel-sep"])
 prop("C16", kind="case", modules=["SasLexer.Properties.C16"], theorems=["SasLexer.C16_tables", "SasLexer.C16_keyword_lookup"],
      variants=["dev", "rel", "rel-sep"])
@@ -404,7 +439,7 @@ BOM_HEX = "efbbbf"
 
 
 def mangle_case(src, seed):
-    rng = random.Random(hash((src, seed)) & 0xFFFFFFFF)
+    rng = random.Random(zlib.crc32(src.encode('utf-8', 'surrogatepass')) ^ (seed * 2654435761 & 0xFFFFFFFF))
     mode = rng.randrange(3)
     out = []
     for ch in src:
@@ -458,6 +493,11 @@ class Evaluator:
             verd = lean_check([f"{pid}\t{hexes[i]}\t{impl[i]}" for i in idx])
             for i, vd in zip(idx, verd):
                 res[i] = (parse_verdict(vd), {"variant": vt[0], "dump": impl[i]})
+            if pid == "C04" and idx:
+                # how often the hypothesis of the pure theorem `C04_of_lineWF` holds of the implementation's buffers
+                wf = lean_check([f"LINEWF\t{hexes[i]}\t{impl[i]}" for i in idx])
+                self.stats[f"lineWF_hypothesis_holds_{vt[0]}"] += sum(1 for x in wf if x == "1")
+                self.stats[f"lineWF_hypothesis_evaluated_{vt[0]}"] += len(wf)
             return res, {vt[0]: impl}
         if k == "grammar":
             # hexes are JSON records of gen_grammar.py (or bare hex during shrinking: not applicable)
@@ -516,6 +556,12 @@ class Evaluator:
             for i, vd, x, y in zip(idx, verd, a, b):
                 res[i] = (parse_verdict(vd), {"variant": vt[0], "dump": x, "dump_with_bom": y})
             sub = [hexes[i] for i in idx]
+            if len(sub) > 50:       # not during shrinking
+                cap = sub[:6000]
+                dbg, sep = ("1" if vt[0].startswith("dev") else "0"), ("1" if vt[0].endswith("sep") else "0")
+                so = lean_check([f"SIDEOK\t{dbg}\t{sep}\t{h}" for h in cap])
+                self.stats[f"shift_side_condition_holds_{vt[0]}"] += sum(1 for x in so if x == "1")
+                self.stats[f"shift_side_condition_evaluated_{vt[0]}"] += len(so)
             return res, {vt[0]: (a + b, sub + [BOM_HEX + h for h in sub])}
         if k == "case":
             m = [hexs(mangle_case(unhex(h), self.seed)) for h in hexes]
@@ -738,6 +784,13 @@ def check_property(pid, tier, seed):
         for stream, n in streams.items():
             inputs += gen_stream(stream, seed, n)
         inputs += [hexs(x) for x in cfg.get("extra_inputs", [])]
+        if tier == "thorough" and cfg["kind"] != "pyext":
+            try:
+                fz, flog = fuzz_corpus(seed, 90)
+                inputs += fz
+                R.cov["fuzz_corpus_inputs"] = len(fz)
+            except Exception as e:   # the fuzzer only finds inputs; its failure is not a verdict
+                R.cov["fuzz_corpus_error"] = str(e)[:300]
     inputs = list(dict.fromkeys(inputs))
     R.cov["inputs"] = len(inputs)
     lens = [len(json.loads(h)["hex"]) // 2 if h.startswith("{") else len(h) // 2 for h in inputs]
